@@ -207,6 +207,12 @@ func run(x *h.Ctx, c Case) string {
 			return fmt.Sprintf("records joined by RS do not reproduce the input (single-character RS)\nRS=%q\ninput:  %q\njoined: %q", rs, h.Trunc(in, 300), h.Trunc(j, 300))
 		}
 	}
+	// even a single read passes through the scanner's 64 KiB buffer: an input longer than that has a
+	// boundary at every multiple of 65536, where KF-C07-1 applies just as at a delivery boundary
+	if h.KFOpen("KF-C07-1") && kind == "regex" && growable(re, in, nil) {
+		x.Excluded("KF-C07-1")
+		return ""
+	}
 	// ---- layer 3: exact model where the answer is uncontroversial
 	modelOK := true
 	switch kind {
